@@ -22,7 +22,7 @@ func (c12) ID() string { return "C12" }
 
 func (c12) Budget(tier string) int {
 	if tier == "thorough" {
-		return 60000
+		return 900000
 	}
 	return 24000
 }
